@@ -2,6 +2,7 @@ import SleapVerif.Lemmas.EvalVoc
 import SleapVerif.Lemmas.EvalMatch
 import SleapVerif.Lemmas.EvalPairs
 import SleapVerif.Lemmas.EvalPct
+import SleapVerif.Props.C15
 
 /-!
 # C16 — evaluation metrics: perfect for perfect predictions, bounded, monotone
@@ -275,6 +276,51 @@ theorem perfect_matching (oks : G → P → Option R) (score : P → R) (pred : 
   unfold matchInstances
   rw [sortDesc_map]
   exact matchLoop_perfect oks pred thr one hthr hself hdist _ gts ((sortDesc_perm _ gs).trans hp) hnd
+
+/-- **Perfect predictions next to empty ground-truth instances** (HEAD's behaviour, stated): `real g` =
+gt instance `g` has a visible keypoint.  With exact copies of *all* gt instances as predictions (the
+copy of an empty instance scores OKS 0/NaN against everything), in any listing order and with any
+detection scores: every real gt is paired with its own copy at OKS `one`, the empty gt instances —
+wherever they stand in the frame's list — are exactly the false negatives, and nothing else is.
+So recall is `#real / #all`, not 1: an empty user instance counts as a miss. -/
+theorem perfect_matching_with_empty (oks : G → P → Option R) (score : P → R) (pred : G → P)
+    (real : G → Bool) (thr one : R) (hthr : thr < one)
+    (hself : ∀ g, real g = true → oks g (pred g) = some one)
+    (hdist : ∀ g g' w, real g = true → g' ≠ g → oks g' (pred g) = some w → w < one)
+    (hempty : ∀ g g' w, real g = false → oks g' (pred g) = some w → ¬ thr < w)
+    (gts gs : List G) (hp : gs.Perm gts) (hnd : gts.Nodup) :
+    (matchInstances oks score thr gts (gs.map pred)).1 =
+      ((sortDesc (score ∘ pred) gs).filter real).map (fun g => (g, pred g, one)) ∧
+    (∀ g ∈ gts, real g = false → g ∈ (matchInstances oks score thr gts (gs.map pred)).2) ∧
+    (∀ g ∈ (matchInstances oks score thr gts (gs.map pred)).2, real g = false) := by
+  have hperm : (sortDesc (score ∘ pred) gs).Perm gts := (sortDesc_perm _ gs).trans hp
+  have h1 : (matchInstances oks score thr gts (gs.map pred)).1 =
+      ((sortDesc (score ∘ pred) gs).filter real).map (fun g => (g, pred g, one)) := by
+    unfold matchInstances
+    rw [sortDesc_map]
+    exact matchLoop_perfect_empty oks pred real thr one hthr hself hdist hempty _ gts hnd
+      (hperm.nodup_iff.mpr hnd) (fun g hg _ => hperm.mem_iff.mp hg)
+  have hcons := SleapVerif.C15.match_conservation oks score thr gts (gs.map pred)
+  have hfst : (matchInstances oks score thr gts (gs.map pred)).1.map (·.1) =
+      (sortDesc (score ∘ pred) gs).filter real := by
+    rw [h1, List.map_map]; simp [Function.comp_def]
+  refine ⟨h1, ?_, ?_⟩
+  · intro g hg hr
+    rcases List.mem_append.mp (hcons.mem_iff.mpr hg) with h | h
+    · rw [hfst] at h
+      have := (List.mem_filter.mp h).2
+      rw [hr] at this; cases this
+    · exact h
+  · intro g hg
+    cases hr : real g with
+    | false => rfl
+    | true =>
+      have hnd2 := hcons.nodup_iff.mpr hnd
+      rw [List.nodup_append] at hnd2
+      have hgts : g ∈ gts := hcons.mem_iff.mp (List.mem_append_right _ hg)
+      have hin : g ∈ (matchInstances oks score thr gts (gs.map pred)).1.map (·.1) := by
+        rw [hfst]; exact List.mem_filter.mpr ⟨hperm.mem_iff.mpr hgts, hr⟩
+      exact absurd rfl (hnd2.2.2 g hin g hg)
 
 /-- **Perfect scores.**  When every positive pair has OKS 1 and nothing was missed (the conclusion
 of `perfect_matching` with `one = 1`): recall (AR) is 1 at every match threshold `t ≤ 1`, mean OKS is
